@@ -8,12 +8,13 @@ Follows `/repo/cbreaker/cbreaker.go`, `ratio.go` and `/repo/memmetrics/roundtrip
 
 * Time is `Nat` nanoseconds since Go's zero `time.Time` (as in `Model/Counter.lean`); `lastCheck = 0`
   is the zero `Time` of a fresh breaker.
-* Two atomic steps (each runs under `CircuitBreaker.m`, C09): `arrive now` = the decision of
-  `activateFallback` for one request (`pass` = handed to the protected handler, `fallback` = answered by
-  the fallback handler — such a request records no metrics and evaluates nothing), and
-  `complete now code orc` = what `serve` does after the protected handler returned:
-  `metrics.Record(code, latency)` then `checkAndSet()`.  Overlapping requests are interleavings
-  `arrive … arrive … complete … complete`.
+* Atomic steps: `arrive now` = the decision of `activateFallback` for one request under
+  `CircuitBreaker.m` (`pass` = handed to the protected handler, `fallback` = answered by the fallback
+  handler — such a request records no metrics and evaluates nothing); and what `serve` does after the
+  protected handler returned, in **two** steps because only the second takes `CircuitBreaker.m`:
+  `record now code` = `metrics.Record(code, latency)` (under `RTMetrics`' own locks) and
+  `check now orc` = `checkAndSet()`.  `complete now code orc` is the two run back to back.  Overlapping
+  requests are interleavings of these steps, e.g. `record_A record_B check_B check_A`.
 * `RTMetrics`: `total`, `netErrors` (502/504) and one lazily created counter per status code, all
   `NewCounter(10, 1s)` (`counterBuckets`, `counterResolution`); the latency histogram is not modelled:
   `orc` carries, per quantile literal of the condition, the value `LatencyAtQuantileMS` returns at
@@ -177,24 +178,37 @@ def checkAndSet (c : Cfg) (b : Brk) (now : Nat) (orc : Oracle) : Brk × Bool :=
                    met := r.1.reset }, true)
   else (b, false)
 
-/-- the tail of `serve`: `metrics.Record(code, latency)`; `checkAndSet()` -/
+/-- `metrics.Record(code, latency)` in `serve`: runs under `RTMetrics`' own locks, **not** under
+    `CircuitBreaker.m` — a step of its own -/
+def record (b : Brk) (now code : Nat) : Brk := { b with met := b.met.record now code }
+
+/-- the tail of `serve` run without interruption: `metrics.Record(code, latency)`; `checkAndSet()`
+    (`= checkAndSet c (record b now code) now orc`, see `complete_eq`) -/
 def complete (c : Cfg) (b : Brk) (now code : Nat) (orc : Oracle) : Brk × Bool :=
   checkAndSet c { b with met := b.met.record now code } now orc
+
+theorem complete_eq (c : Cfg) (b : Brk) (now code : Nat) (orc : Oracle) :
+    complete c b now code orc = checkAndSet c (record b now code) now orc := rfl
 
 /-! ### traces -/
 
 inductive Ev where
   | arrive (now : Nat)
-  | complete (now code : Nat) (orc : Oracle)
+  | record (now code : Nat)                      -- `Record` of a completing request
+  | check (now : Nat) (orc : Oracle)             -- its `checkAndSet`, possibly after other requests' steps
+  | complete (now code : Nat) (orc : Oracle)     -- `record` and `check` with nothing in between
 deriving Repr
 
 def Ev.time : Ev → Nat
   | .arrive t => t
+  | .record t _ => t
+  | .check t _ => t
   | .complete t _ _ => t
 
 /-- what an event shows: the answer to an arriving request, or whether a completion tripped the breaker -/
 inductive Obs where
   | pass | fallback
+  | recorded
   | done (tripped : Bool)
 deriving Repr, DecidableEq
 
@@ -202,6 +216,10 @@ def step (c : Cfg) (b : Brk) : Ev → Brk × Obs
   | .arrive t =>
     let r := arrive c b t
     (r.2, match r.1 with | .pass => .pass | .fallback => .fallback)
+  | .record t code => (record b t code, .recorded)
+  | .check t orc =>
+    let r := checkAndSet c b t orc
+    (r.1, .done r.2)
   | .complete t code orc =>
     let r := complete c b t code orc
     (r.1, .done r.2)
